@@ -99,7 +99,11 @@ func runG07(raw json.RawMessage, w *Writer) {
 					continue
 				}
 				heads = append(heads, rx.IsPartitionHead(q.Payload))
-				tails = append(tails, rx.IsPartitionTail(q.Marker, q.Payload))
+				tail := rx.IsPartitionTail(q.Marker, q.Payload)
+				if h, ok := rx.(*codecs.H264Packet); ok && h.IsDetectedFinalPacketInSequence(q.Marker) != tail {
+					tail = !q.Marker // the two ways of asking H264Packet for the end of a frame disagree: reported as a wrong tail
+				}
+				tails = append(tails, tail)
 				out, err := rx.Unmarshal(q.Payload)
 				if err != nil {
 					rxRes = "err"
